@@ -513,11 +513,36 @@ impl StateStore {
         // millisecond (or one taken after a restart that finds an older directory of
         // that millisecond) must not share an id, or the later one would overwrite
         // the earlier one's files.
-        let mut checkpoint_id = format!("checkpoint_{}", now_ms);
-        let mut sequence = 0u64;
+        // Continue after the newest listed checkpoint of this millisecond, so that the id of a
+        // checkpoint that retention has already evicted is not handed out again either.
+        let base_id = format!("checkpoint_{}", now_ms);
+        let numbered = format!("{}_", base_id);
+        let mut sequence = self
+            .checkpoints
+            .read()
+            .unwrap()
+            .iter()
+            .filter_map(|c| {
+                if c.id == base_id {
+                    Some(0)
+                } else {
+                    c.id.strip_prefix(numbered.as_str())
+                        .and_then(|n| n.parse::<u64>().ok())
+                }
+            })
+            .max()
+            .map_or(0, |newest| newest + 1);
+        let id_for = |sequence: u64| {
+            if sequence == 0 {
+                base_id.clone()
+            } else {
+                format!("{}{}", numbered, sequence)
+            }
+        };
+        let mut checkpoint_id = id_for(sequence);
         while self.checkpoint_id_in_use(&checkpoint_id) {
             sequence += 1;
-            checkpoint_id = format!("checkpoint_{}_{}", now_ms, sequence);
+            checkpoint_id = id_for(sequence);
         }
 
         let state = self.state.read().unwrap();
